@@ -314,40 +314,45 @@ def rule_f(ctx):
     ctx.ob(R, f.qname, "the corner collections stack origin resp. opposite_corner of every input image", src_ok, str(am.show()), f.node)
     CO, CP = am.actual("collection_origin"), am.actual("collection_opposite")
     src_ok = src_ok and am.has(f.node, f"indexing = {imgs}[0].indexing") is not None and am.has(f.node, f"space_dim = {imgs}[0].space_dim") is not None
-    loops = [l for l in ast.walk(f.node) if isinstance(l, ast.For) and any(isinstance(s, ast.Assign) and isinstance(s.value, ast.Call) and norm(s.value.func) == "darsia.interpret_indexing" for s in l.body)]
+    loops = [l for l in ast.walk(f.node) if isinstance(l, ast.For) and any(isinstance(c, ast.Call) and norm(c.func) == "darsia.interpret_indexing" for s in l.body for c in ast.walk(s))]
     ok = False
     desc = ""
+    # the loop is folded symbolically for the only supported layout ('ij'): whichever way it is written, it must leave
+    # origin = [ext(CO[:, 0]), ext(CO[:, 1])], opposite = [ext'(CP[:, 0]), ext'(CP[:, 1])] with ext = max on reversed axes, min otherwise
     if src_ok and len(loops) == 1:
+        from ..fold import Folder, Opaque, Raised, Refuse
+        from . import c20
+
+        T_i, _, _ = c20.extract_tables(ctx)
         lp = loops[0]
-        i = norm(lp.target)
-        tr = [s for s in lp.body if isinstance(s, ast.Assign)]
-        iff = [s for s in lp.body if isinstance(s, ast.If)]
-        if len(tr) == 1 and len(iff) == 1 and isinstance(tr[0].targets[0], ast.Tuple) and len(tr[0].targets[0].elts) == 2 \
-                and [norm(a) for a in tr[0].value.args] == [f"'xyz'[{i}]", am.actual("indexing") or "indexing"] and norm(iff[0].test) == norm(tr[0].targets[0].elts[1]):
-            def arm(stmts):
-                got = {}
-                for s_ in stmts:
-                    c = s_.value if isinstance(s_, ast.Expr) else None
-                    if isinstance(c, ast.Call) and isinstance(c.func, ast.Attribute) and c.func.attr == "append" and len(c.args) == 1 and isinstance(c.args[0], ast.Call) \
-                            and norm(c.args[0].func) in ("np.max", "np.min", "np.amax", "np.amin") and len(c.args[0].args) == 1:
-                        col = norm(c.args[0].args[0])
-                        kind = "origin" if col == f"{CO}[:, {i}]" else ("opposite" if col == f"{CP}[:, {i}]" else None)
-                        got[(norm(c.func.value), kind)] = "max" if "max" in norm(c.args[0].func) else "min"
-                return got
-            a_rev, a_fwd = arm(iff[0].body), arm(iff[0].orelse)
-            desc = f"reversed: {a_rev}; not reversed: {a_fwd}"
-            lists = sorted({k[0] for k in a_rev})
-            if len(a_rev) == 2 and len(a_fwd) == 2 and len(lists) == 2:
-                o_list = next((k[0] for k, v in a_rev.items() if k[1] == "origin"), None)
-                p_list = next((k[0] for k, v in a_rev.items() if k[1] == "opposite"), None)
-                ok = (o_list is not None and p_list is not None and o_list != p_list
-                      and a_rev.get((o_list, "origin")) == "max" and a_rev.get((p_list, "opposite")) == "min"
-                      and a_fwd.get((o_list, "origin")) == "min" and a_fwd.get((p_list, "opposite")) == "max")
-                if ok:
-                    am.bind.setdefault("origin", o_list)
-                    am.bind.setdefault("opposite", p_list)
+        lists = sorted({c.func.value.id for c in ast.walk(lp) if isinstance(c, ast.Call) and isinstance(c.func, ast.Attribute) and c.func.attr == "append" and isinstance(c.func.value, ast.Name)})
+        fo = Folder(symbolic=True)
+        fo.func_stack.append(f.node)
+        env = {am.actual("space_dim") or "space_dim": 2, am.actual("indexing") or "indexing": "ij", CO: Opaque("arr", "CO"), CP: Opaque("arr", "CP")}
+        for nm in lists:
+            env[nm] = []
+        try:
+            fo.stmt(lp, env)
+            got = {nm: [repr(x).replace("()", "") for x in env[nm]] for nm in lists}
+        except (Refuse, Raised) as e:
+            got = None
+            desc = f"canvas loop not found to be foldable: {e}"
+        if got is not None and len(lists) == 2:
+            rev = [T_i[(a, "ij")][1][1] for a in "xy"]
+            want_o = [f"np.{'max' if r else 'min'}(CO[:, {k}])" for k, r in enumerate(rev)]
+            want_p = [f"np.{'min' if r else 'max'}(CP[:, {k}])" for k, r in enumerate(rev)]
+            o_list = next((nm for nm in lists if got[nm] == want_o), None)
+            p_list = next((nm for nm in lists if got[nm] == want_p), None)
+            ok = o_list is not None and p_list is not None and o_list != p_list
+            desc = f"the loop leaves {got}; a bounding box needs {want_o} and {want_p}"
+            if ok:
+                am.bind.setdefault("origin", o_list)
+                am.bind.setdefault("opposite", p_list)
     ctx.ob(R, f.qname, "per axis: reversed -> (origin = max, opposite = min), otherwise (origin = min, opposite = max)", ok,
-           desc + " -- the canvas would not contain every input image: parts are clipped and the integral is lost", loops[0] if loops else f.node)
+           desc + (" -- the canvas would not contain every input image: parts are clipped and the integral is lost" if desc.startswith("the loop leaves") else ""), loops[0] if loops else f.node, evidence=desc.startswith("the loop leaves"))
+    if not ok:
+        ctx.floor(R, 1)
+        return
     dims_ok = ok and all(am.has(f.node, t) is not None for t in (
         "cart_dims = [abs(opposite[k] - origin[k]) for k in range(space_dim)]",
         "to_matrix = [darsia.interpret_indexing('ijk'[k], 'xyz'[:space_dim])[0] for k in range(space_dim)]",
